@@ -417,3 +417,70 @@ package database
 //@   modifies targets[*]
 //@   ensures[C07.fuzzy-find] fresh(result) && (forall k int :: 0 <= k && k < len(result) ==> 0 <= result[k].Index && result[k].Index < len(targets))
 //@   ensures[C07.fuzzy-find-order] forall a, b int :: 0 <= a && a < b && b < len(result) ==> result[a].Score >= result[b].Score && result[a].Index != result[b].Index
+
+// ---------------------------------------------------------------------------
+// Caching layer (C05)
+
+//@ func convertDBResults
+//@   modifies nothing
+//@   ensures[C05.to-cache] fresh(result) && len(result) == len(results) && (forall k int :: 0 <= k && k < len(results) ==> result[k].Score == results[k].Score && result[k].Command == box(results[k].Command))
+//@ loop 1
+//@   invariant len(out) == len(results) && fresh(out) && (forall k int :: 0 <= k && k < $i ==> out[k].Score == results[k].Score && out[k].Command == box(results[k].Command))
+//@ func convertCacheResults
+//@   modifies nothing
+//@   ensures[C05.from-cache] fresh(result) && len(result) <= len(cached)
+//@   ensures[C05.from-cache-exact] (forall k int :: 0 <= k && k < len(cached) ==> istype(cached[k].Command, *Command)) ==> len(result) == len(cached) && (forall k int :: 0 <= k && k < len(cached) ==> result[k].Score == cached[k].Score && result[k].Command == astype(cached[k].Command, *Command))
+//@ loop 1
+//@   invariant len(results) <= $i && ((forall k int :: 0 <= k && k < $i ==> istype(cached[k].Command, *Command)) ==> len(results) == $i && (forall k int :: 0 <= k && k < $i ==> results[k].Score == cached[k].Score && results[k].Command == astype(cached[k].Command, *Command)))
+
+//@ pure func cacheWF(cdb *CachedDatabase) bool = cdb.Database != nil && cdb.cacheManager != nil && cache.scWF(cdb.cacheManager.searchCache)
+//@ pure func cdbWF(cdb *CachedDatabase) bool = cacheWF(cdb) && dbInv(cdb.Database)
+
+// A search through the cache: bypass when disabled; otherwise exactly one lookup, at most one
+// real search, and a store only of what that search just returned.
+//@ func (*CachedDatabase).SearchWithOptionsAndCache
+//@   requires cdbWF(cdb)
+//@   modifies cdb.Database.*, cdb.cacheManager.searchCache.cache.*, cdb.cacheManager.searchCache.cache.items[*], ghost(llen), ghost(lat), ghost(lpos), ghost(lof), heap(list.Element), heap(cache.Entry)
+//@   ensures[C05.search-wf] cdbWF(cdb) && cdb.Database.Commands == old(cdb.Database.Commands)
+//@   ensures[C05.disabled-bypass] !old(cdb.cacheManager.enabled) ==> calls("(*database.Database).SearchUniversal") == 1 && calls("(*cache.SearchCache).Get") == 0 && calls("(*cache.SearchCache).Put") == 0
+//@   ensures[C05.enabled-lookup] old(cdb.cacheManager.enabled) ==> calls("(*cache.SearchCache).Get") == 1 && calls("(*database.Database).SearchUniversal") + calls("database.convertCacheResults") == 1
+//@   ensures[C05.store-only-computed] calls("(*cache.SearchCache).Put") <= calls("(*database.Database).SearchUniversal") && calls("(*cache.SearchCache).Put") == calls("database.convertDBResults")
+
+//@ func (*CachedDatabase).InvalidateCache
+//@   requires cacheWF(cdb)
+//@   modifies cdb.cacheManager.searchCache.cache.*, ghost(llen), ghost(lof), ghost(lstale)
+//@   ensures[C05.invalidate-empties] cacheWF(cdb) && len(cdb.cacheManager.searchCache.cache.items) == 0
+
+//@ func (*CachedDatabase).EnableCache
+//@   requires cacheWF(cdb)
+//@   modifies cdb.cacheManager.*, cdb.cacheManager.searchCache.*
+//@   ensures[C05.enable] cacheWF(cdb) && cdb.cacheManager.enabled == enabled && cdb.cacheManager.searchCache.enabled == enabled && len(cdb.cacheManager.searchCache.cache.items) == old(len(cdb.cacheManager.searchCache.cache.items))
+
+//@ func (*CachedDatabase).CleanupExpiredCache
+//@   requires cacheWF(cdb)
+//@   modifies cdb.cacheManager.searchCache.cache.items[*], ghost(llen), ghost(lat), ghost(lpos), ghost(lof)
+//@   ensures[C05.cleanup-wf] cacheWF(cdb)
+//@   ensures[C05.cleanup] (forall k string :: (k in cdb.cacheManager.searchCache.cache.items) ==> old(k in cdb.cacheManager.searchCache.cache.items) && cdb.cacheManager.searchCache.cache.items[k] == old(cdb.cacheManager.searchCache.cache.items[k]))
+
+// No cached entry outlives a database replacement; index and re-ranker follow the new list.
+//@ func (*CachedDatabase).UpdateDatabase
+//@   requires cacheWF(cdb) && (cdb.Database.embeddingIndex != nil ==> embedding.wfEmb(cdb.Database.embeddingIndex))
+//@   modifies cdb.Database.*, cdb.cacheManager.searchCache.cache.*, ghost(llen), ghost(lof), ghost(lstale)
+//@   ensures[C05.update-empties-cache] len(cdb.cacheManager.searchCache.cache.items) == 0
+//@   ensures[C03.update-fresh] cdb.Database.Commands == commands && idxOK(cdb.Database) && dbInv(cdb.Database) && cdbWF(cdb)
+
+// Monitoring wrappers: the pre-lookup only touches recency and counters (contract of
+// SearchCache.Get: no other key changes, stored values stay); exactly one cached search.
+//@ pure func mdbWF(mdb *MonitoredDatabase) bool = mdb.CachedDatabase != nil && cdbWF(mdb.CachedDatabase) && mdb.monitor != nil && metrics.collectorWF(mdb.monitor.collector)
+//@ func (*MonitoredDatabase).SearchWithOptionsAndMonitoring
+//@   requires mdbWF(mdb)
+//@   modifies anything
+//@   ensures[C05.monitored-one-search] calls("(*database.CachedDatabase).SearchWithOptionsAndCache") == 1 && calls("(*cache.SearchCache).Get") == 1
+//@ func (*MonitoredDatabase).SearchWithMonitoring
+//@   requires mdbWF(mdb)
+//@   modifies anything
+//@   ensures[C05.monitored-one-search-simple] calls("(*database.CachedDatabase).SearchWithOptionsAndCache") == 1 && calls("(*cache.SearchCache).Get") == 1
+//@ func (*MonitoredDatabase).LoadDatabaseWithMonitoring
+//@   requires mdb.CachedDatabase != nil && cacheWF(mdb.CachedDatabase) && (mdb.CachedDatabase.Database.embeddingIndex != nil ==> embedding.wfEmb(mdb.CachedDatabase.Database.embeddingIndex)) && mdb.monitor != nil && metrics.collectorWF(mdb.monitor.collector)
+//@   modifies anything
+//@   ensures[C05.monitored-update] calls("(*database.CachedDatabase).UpdateDatabase") == 1 && result == nil
